@@ -88,6 +88,11 @@ func introspectRemoteSchema(factory QueryerFactory, url string) (*ast.Schema, er
 	}
 
 	for _, remoteType := range remoteSchema.Types {
+		// a truncated type reference cannot be converted
+		if err := checkTypeRefs(remoteType); err != nil {
+			return nil, err
+		}
+
 		// convert turn the API payload into a schema type
 		schemaType := parseType(remoteType)
 		if schemaType == nil {
@@ -368,15 +373,41 @@ func parseArgList(args []IntrospectionInputValue) ast.ArgumentDefinitionList {
 	return result
 }
 
-func parseTypeRef(response *IntrospectionTypeRef) *ast.Type {
-	// a malformed reference (NON_NULL or LIST without ofType) becomes a nameless type,
-	// which the final schema validation reports as an error
-	if response == nil {
-		return ast.NamedType("", &ast.Position{})
+// checkTypeRefs makes sure that every type reference of the type ends in a named type
+func checkTypeRefs(remoteType IntrospectionQueryFullType) error {
+	check := func(ref *IntrospectionTypeRef) error {
+		for ; ref != nil; ref = ref.OfType {
+			if ref.Kind != "NON_NULL" && ref.Kind != "LIST" {
+				if ref.Name == "" {
+					break
+				}
+				return nil
+			}
+		}
+		return fmt.Errorf("malformed type reference in type %s", remoteType.Name)
 	}
+	checkArgs := func(args []IntrospectionInputValue) error {
+		for i := range args {
+			if err := check(&args[i].Type); err != nil {
+				return err
+			}
+		}
+		return nil
+	}
+	for i := range remoteType.Fields {
+		if err := check(&remoteType.Fields[i].Type); err != nil {
+			return err
+		}
+		if err := checkArgs(remoteType.Fields[i].Args); err != nil {
+			return err
+		}
+	}
+	return checkArgs(remoteType.InputFields)
+}
 
+func parseTypeRef(response *IntrospectionTypeRef) *ast.Type {
 	// we could have a non-null list of a field
-	if response.Kind == "NON_NULL" && response.OfType != nil && response.OfType.Kind == "LIST" {
+	if response.Kind == "NON_NULL" && response.OfType.Kind == "LIST" {
 		return ast.NonNullListType(parseTypeRef(response.OfType.OfType), &ast.Position{})
 	}
 
@@ -386,7 +417,7 @@ func parseTypeRef(response *IntrospectionTypeRef) *ast.Type {
 	}
 
 	// we could have just a non null
-	if response.Kind == "NON_NULL" && response.OfType != nil {
+	if response.Kind == "NON_NULL" {
 		return ast.NonNullNamedType(response.OfType.Name, &ast.Position{})
 	}
 
